@@ -165,7 +165,9 @@ theorem desugar_vars (N : Nat) : ∀ n : Node, sizeOf n < N → ∀ cmd, desugar
     intro n hsz cmd hd
     rw [desugar.eq_def] at hd
     split at hd
-    · cases hd; intro v hv; simp [Cmd.vars] at hv
+    · split at hd
+      · cases hd
+      · cases hd; intro v hv; simp [Cmd.vars] at hv
     · cases hd; intro v hv; simp [Cmd.vars] at hv
     · cases hd; intro v hv; simp [Cmd.vars] at hv
     · cases hd; intro v hv; simp [Cmd.vars] at hv
